@@ -311,3 +311,27 @@ void tinyjambu_prng_set_reseed_limit
         limit = 1;
     pstate->reseed_limit = limit;
 }
+
+#if defined(RWEATHER_TINYJAMBU_VERIF)
+
+/* Verification hooks, compiled only with -DRWEATHER_TINYJAMBU_VERIF.
+ * They read and place the block counter of a PRNG state so that a test
+ * harness can reach histories that would otherwise need billions of API
+ * calls (for example a counter just below the top of its 32-bit range). */
+
+unsigned long tinyjambu_prng_verif_get_counter
+    (const tinyjambu_prng_state_t *state)
+{
+    const tinyjambu_prng_state_p_t *pstate =
+        (const tinyjambu_prng_state_p_t *)state;
+    return pstate->reseed_counter;
+}
+
+void tinyjambu_prng_verif_set_counter
+    (tinyjambu_prng_state_t *state, unsigned long value)
+{
+    tinyjambu_prng_state_p_t *pstate = (tinyjambu_prng_state_p_t *)state;
+    pstate->reseed_counter = (uint32_t)value;
+}
+
+#endif /* RWEATHER_TINYJAMBU_VERIF */
